@@ -151,15 +151,25 @@ def eval_condition(cond, records: Dict[str, tuple], record_dims: Dict[str, tuple
         tv = cond.target_value      # documented: (a & bitmask) == target_value -- the target is not masked
         return (value == tv) if cond.equal_target else (value != tv)
     if isinstance(cond, cirq.SympyCondition):
+        # plain symbols stand for the big-endian integer of the last record of that key; `IndexedBase(key)[i]`
+        # stands for digit i (big-endian) of that record -- the documented meaning
         subs = {}
-        for sym in cond.expr.free_symbols:
-            name = str(sym)
-            if name not in records:
-                raise Unsupported(f"sympy condition on unmeasured key {name}")
-            subs[sym] = _record_int(records[name][-1], record_dims[name])
-        if any(isinstance(a, sympy.Indexed) for a in sympy.preorder_traversal(cond.expr)):
-            raise Unsupported("indexed sympy conditions are not modelled")
-        return bool(cond.expr.subs(subs))
+        for node in sympy.preorder_traversal(cond.expr):
+            if isinstance(node, sympy.Indexed):
+                name = str(node.base)
+                if name not in records:
+                    raise Unsupported(f"sympy condition on unmeasured key {name}")
+                idx = int(node.indices[0])
+                subs[node] = int(records[name][-1][idx])
+        expr = cond.expr.subs(subs)
+        subs2 = {}
+        for sym in expr.free_symbols:
+            if isinstance(sym, sympy.Symbol) and not isinstance(sym, sympy.Indexed):
+                name = str(sym)
+                if name not in records:
+                    raise Unsupported(f"sympy condition on unmeasured key {name}")
+                subs2[sym] = _record_int(records[name][-1], record_dims[name])
+        return bool(expr.subs(subs2))
     raise Unsupported(f"condition type {type(cond).__name__}")
 
 
